@@ -103,6 +103,10 @@ def run_real(M, kind, T, seed, dt, safe=False, vol0=1.0, volume_factory=None, ql
     py_seed_random(int(seed))
     out = {}
     T = np.array(T, dtype=float)
+    if int(seed) % 2:
+        # the same grid as a non-contiguous view (every other element of a longer buffer), as slicing a finer grid or a
+        # column of a table gives: the requested times are the array's elements, whatever its memory layout
+        T = np.repeat(T, 2)[::2]
     if kind in ("volume", "delayvolume"):
         if volume_factory is None:
             v = Volume()
